@@ -549,10 +549,46 @@ static void run_lfht(void)
 	(void)others_in_op;
 }
 
+/* lock-free del / add on a table with node accounting and automatic resizing: the split-counter commit path arbitrates the
+ * lazy resize target with cmpxchg retry loops; the resize worker is just another suspended thread */
+static void run_lfht_acct(void)
+{
+	int n = (int)vrt_param("n", 5), i, key;
+	struct cds_lfht_iter it;
+
+	hmap = (int)vrt_param("hmap", 0);
+	ht = cds_lfht_new_flavor((unsigned long)vrt_param("init", 8), 1, 8, CDS_LFHT_AUTO_RESIZE | CDS_LFHT_ACCOUNTING, &urcu_spec_flavor, NULL);
+	for (i = 0; i < n; i++) {
+		vrt_spec_read_lock();
+		cds_lfht_add(ht, hash_of(i & 3), &mk(i, i & 3)->n);
+		vrt_spec_read_unlock();
+	}
+	/* from here on the worker (and anybody else) stays frozen: every operation must complete on its own */
+	for (i = 0; i < n; i++) {
+		key = i & 3;
+		vrt_spec_read_lock();
+		vrt_solo_begin("cds_lfht_lookup+del (accounting, lazy resize pending)", LF_BOUND);
+		cds_lfht_lookup(ht, hash_of(key), match, &key, &it);
+		if (cds_lfht_iter_get_node(&it))
+			(void)cds_lfht_del(ht, cds_lfht_iter_get_node(&it));
+		vrt_solo_end();
+		vrt_spec_read_unlock();
+	}
+	for (i = 0; i < n + 4; i++) {
+		vrt_spec_read_lock();
+		vrt_solo_begin("cds_lfht_add (accounting, lazy resize pending)", LF_BOUND);
+		cds_lfht_add(ht, hash_of(i & 3), &mk(8 + (i & 7), i & 3)->n);
+		vrt_solo_end();
+		vrt_spec_read_unlock();
+		hn[8 + (i & 7)] = NULL;
+	}
+}
+
 struct vrt_scenario vrt_scenarios[] = {
 	{ "wfcq", run_wfcq, "wfcqueue: enqueue / nonblocking dequeue, splice, iteration / empty with suspended victims" },
 	{ "stack", run_stack, "wfstack (kind 0) and lfstack (kind 1) probes with suspended victims" },
 	{ "lfq", run_lfq, "rculfqueue enqueue / dequeue complete solo (helping)" },
+	{ "lfht_acct", run_lfht_acct, "rculfhash with accounting + auto-resize: del/add complete solo while lazy resizes stay pending" },
 	{ "lfht", run_lfht, "rculfhash lookups / traversals bounded, updates complete solo, with suspended updaters / resizer" },
 	{ NULL, NULL, NULL }
 };
